@@ -21,6 +21,9 @@ pub enum Shape
     Wrong,
     /// one `fn` item registered several times: (AllReaders, Local), no script
     NamedFn,
+    /// like Full, but the system's only `Commands` is nested in a `ParamSet` (deferred work that
+    /// `System::has_deferred` does not report in bevy 0.15)
+    PsetCmds,
 }
 
 #[derive(Debug, Clone, Copy, PartialEq, Eq, Hash, Serialize, Deserialize)]
@@ -242,8 +245,8 @@ pub struct Profile
     /// op kind weights at top level / inside scripts
     pub w_top: [u16; N_OPK],
     pub w_script: [u16; N_OPK],
-    /// Full, Exclusive, Minimal, Wrong, NamedFn
-    pub w_shape: [u16; 5],
+    /// Full, Exclusive, Minimal, Wrong, NamedFn, PsetCmds
+    pub w_shape: [u16; 6],
     /// Unit, DropErr, WarnErr
     pub w_result: [u16; 3],
     /// Persistent, Cleanup, Revokable
@@ -289,7 +292,7 @@ impl Profile
             //        run sev bc  eev ins mut tmu rem rmu rtr dEn dSy gc pol rPo rFr rev prb aut
             w_top:    [8,  8,  10, 10, 8,  8,  4,  7,  5,  4,  5,  3,  2, 2,  8,  8,  6,  3, 2],
             w_script: [10, 10, 10, 10, 7,  7,  3,  6,  5,  3,  4,  3,  2, 2,  4,  4,  5,  6, 2],
-            w_shape: [10, 5, 2, 1, 1],
+            w_shape: [10, 5, 2, 1, 1, 2],
             w_result: [6, 3, 1],
             w_regmode: [5, 3, 3],
             w_key: [6, 4, 5, 4, 4, 4, 3, 4, 3, 4, 4],
@@ -336,7 +339,7 @@ impl Profile
                 p.max_script_ops = 6;
                 p.max_systems = 5;
                 p.hot_entities = 2;
-                if prop == "C13" { p.max_top = 18; p.w_shape = [8, 5, 3, 1, 3]; }
+                if prop == "C13" { p.max_top = 18; p.w_shape = [8, 5, 3, 1, 3, 2]; }
                 if prop == "C09"
                 {
                     // polled reactions are part of the statement: despawn / removal keys, revokes and despawns
@@ -354,7 +357,7 @@ impl Profile
                 p.name = "probes";
                 p.w_top =    [6,  8,  10, 10, 6,  6,  3,  4,  4,  2,  3,  2,  1, 1,  8,  6,  3,  6, 1];
                 p.w_script = [8,  8,  8,  8,  5,  5,  2,  4,  3,  2,  3,  2,  1, 1,  3,  2,  3,  16, 1];
-                p.w_shape = [8, 8, 2, 1, 1];
+                p.w_shape = [8, 8, 2, 1, 1, 2];
                 p.w_result = [5, 4, 2];
                 p.p_err = 70;
                 p.p_take_twice = 80;
@@ -365,7 +368,7 @@ impl Profile
                 p.w_top =    [3,  10, 12, 12, 3,  3,  1,  2,  2,  1,  5,  6,  2, 1,  10, 8,  5,  1, 1];
                 p.w_script = [5,  12, 12, 12, 3,  3,  1,  2,  2,  1,  5,  7,  2, 1,  4,  3,  6,  1, 1];
                 p.w_key = [10, 8, 9, 2, 2, 2, 1, 1, 1, 2, 2];
-                p.w_shape = [8, 4, 4, 3, 1];
+                p.w_shape = [8, 4, 4, 3, 1, 2];
                 p.p_self = 90;
             }
             "C06" =>
@@ -583,7 +586,8 @@ impl<'a, 'p> Dec<'a, 'p>
             1 => Shape::Exclusive,
             2 => Shape::Minimal,
             3 => Shape::Wrong,
-            _ => Shape::NamedFn,
+            4 => Shape::NamedFn,
+            _ => Shape::PsetCmds,
         };
         let result = match self.weighted(&self.p.w_result.clone())
         {
